@@ -100,7 +100,9 @@ Layouts ==
       subptrs |-> [recv |-> "value", fields |-> << Fld("a", "int", TRUE), Fld("b", "string", TRUE) >>],   \* catalog.SubPtrs
       outer  |-> [recv |-> "value", fields |-> << Fld("a", "int", FALSE), Fld("w", "wide", FALSE) >>],   \* catalog.Outer (a Wide by value)
       \* catalog.Strs: string properties backed by []byte / []rune / a defined string type
-      strs   |-> [recv |-> "value", fields |-> << Fld("b", "string_bytes", FALSE), Fld("r", "string_runes", FALSE), Fld("e", "named", FALSE), Fld("a", "int", FALSE) >>] ]
+      strs   |-> [recv |-> "value", fields |-> << Fld("b", "string_bytes", FALSE), Fld("r", "string_runes", FALSE), Fld("e", "named", FALSE), Fld("a", "int", FALSE) >>],
+      \* catalog.Opts: a map-based sub-object held by value in a field of type map[string]any (fk "objmap")
+      opts   |-> [recv |-> "value", fields |-> << Fld("a", "int", FALSE), Fld("o", "objmap", FALSE) >>] ]
 LayoutIds == DOMAIN Layouts
 FieldOf(layout, name) ==
     LET fs == Layouts[layout].fields IN fs[CHOOSE i \in DOMAIN fs : fs[i].name = name]
@@ -131,6 +133,8 @@ FieldFits(fk, t) ==
       [] fk = "list_string" -> t.kind = "list" /\ t.items.kind = "string"
       [] fk = "map_string_int" -> t.kind = "map" /\ t.keys.kind = "string" /\ t.values.kind = "int"
       [] fk = "any" -> t.kind \in {"any", "oneof", "ref"} \/ (t.kind = "object" /\ t.layout = "map")
+                       \/ (t.kind = "scope" /\ \A i \in DOMAIN t.objects : t.objects[i].layout = "map")    \* a nested scope of map-based objects
+      [] fk = "objmap" -> (t.kind = "object" /\ t.layout = "map") \/ (t.kind = "scope" /\ \A i \in DOMAIN t.objects : t.objects[i].layout = "map")
       [] fk = "sub" -> t.kind = "ref" \/ (t.kind = "object" /\ t.layout = "sub")
       [] fk = "subp" -> t.kind = "ref" \/ (t.kind = "object" /\ t.layout \in {"sub", "sub_p"})
       [] fk = "wide" -> t.kind = "object" /\ t.layout = "wide"
@@ -163,7 +167,9 @@ WFObject(s) ==
           \* caveat (ii) of DESIGN 3: a by-value field cannot represent absence, so a property that can
           \* be absent after defaulting is a pointer / nil-able field or treats its empty value as absence
           /\ (s.layout # "map" /\ ~Nullable(FieldOf(s.layout, p.name)))
-                => (p.required \/ p.default.some \/ p.empty_is_default \/ FieldOf(s.layout, p.name).fk \in {"sub", "wide"})
+                => (p.required \/ p.default.some \/ p.empty_is_default \/ (FieldOf(s.layout, p.name).fk \in {"sub", "wide", "objmap"} /\ p.type.kind # "scope"))
+          \* (an absent object-typed member held by value is rebuilt from its own defaults; a SCOPE-typed one is not: left
+          \* out, its by-value field reads back as an empty mapping, which is not what was unserialized)
     /\ s.layout \in {"map"} \cup LayoutIds
 WF(s) ==
     CASE s.kind = "int" ->
